@@ -264,7 +264,20 @@ impl<T: ?Sized> RwLock<T> {
             typ,
             self,
         );
+        // A task that already holds a read lock fails with `WouldBlock` (so potential deadlocks can be
+        // diagnosed). It must do so without taking a permit: the permit would never be given back, and
+        // no writer could ever acquire the lock again. Only the task itself can drop its read lock, so
+        // this cannot change across the scheduling point below.
+        let reentrant_read = typ == RwLockType::Read
+            && matches!(&state.holder, RwLockHolder::Read(readers) if readers.contains(me));
         drop(state);
+
+        if reentrant_read {
+            // Like `try_acquire`, this is a scheduling point.
+            thread::switch();
+            trace!("failed to acquire {:?} lock on rwlock {:p} (already held by this task)", typ, self);
+            return false;
+        }
 
         // Semaphore is never closed, so an error here is always `NoPermits`.
         let mut acquired = self.semaphore.try_acquire(typ.num_permits()).is_ok();
